@@ -45,6 +45,9 @@ class TimersCtx(BaseCtx):
                 end = ["pclose", 0, bool(cfg.get("prelude_clean", True))]
             self.prelude = [["fire", 0], ["conn_ok", 0], ["send", 0, cfg["peer_open0"], []],
                             ["send", 0, rp.encode_keepalive().hex(), []], end]
+        if cfg.get("prelude_opensent_drop") is not None and not self.prelude:
+            # an earlier connection on which the peer never sent its OPEN and which it dropped after d seconds
+            self.prelude = [["fire", 0], ["conn_ok", 0], ["advance", cfg["prelude_opensent_drop"]], ["pclose", 0, bool(cfg.get("prelude_clean", True))]]
         self.in_prelude = bool(self.prelude)
         self.prelude_left = len(self.prelude)      # counted in step(), so that replay needs no choose()
         self.prelude_sent = 0
@@ -432,6 +435,12 @@ class TimersProfile(BaseProfile):
             cfg["idle_hold_time"] = rng.pick([1, 30])
         cfg["call_later"] = rng.pick([0, 15])
         cfg["variant"] = "silence" if rng.chance(0.1) else "session"
+        if not cfg.get("peer_open0") and rng.chance(0.08):
+            cfg["prelude_opensent_drop"] = rng.pick([0.5, 20.0, 130.0, 200.0])
+            cfg["prelude_clean"] = rng.chance(0.5)
+            cfg["idle_hold_time"] = rng.pick([1, 30])
+            if rng.chance(0.6):
+                cfg["variant"] = "silence"
         cfg["n_arrivals"] = rng.pick([0, 1, 2, 4, 8, 16])
         cfg["max_ops"] = 400
         cfg["peer_open"] = base.gen_open(rng, cfg, "valid", hold=cfg["peer_hold"]).hex()
